@@ -430,6 +430,8 @@ Lemma guarded_item_safe f (IH : P f) item x off m :
   safe off (off + lsize item) (bind (item_guard f item x) (fun _ => fill f item off x m)) m.
 Proof.
   intros Hwf Hsz Ho Hb. unfold item_guard.
+  (* this is where the order fact is used: the flag the guard reads is the real one *)
+  change flag_visible with true. cbn [andb].
   destruct (agg_var item && negb (is_cdata x)) eqn:Eg; cbn [bind].
   - rewrite andb_true_iff, negb_true_iff in Eg. destruct Eg as (Ev & Ec).
     destruct item as [| |size var fs]; try discriminate. cbn in Ev. subst var. cbn [agg_fields lsize] in *.
